@@ -45,6 +45,11 @@ type ChildCase struct {
 	// an ancestor of the judged caller's, and a thread-sync load must be refused.
 	PreloadPolicy *PolicySpec `json:"preload_policy,omitempty"`
 	Unprivileged  bool        `json:"unprivileged,omitempty"`
+	// GCSpray: inside the install hook (between building the seccomp argument and the system call) the child
+	// forces garbage collections and then allocates many slices of the program's size filled with another
+	// program: 1 = "ret ALLOW" everywhere, 2 = zero words (refused by the kernel), 3 = collections only.
+	// Correct code is unaffected (the program stays reachable until the kernel has copied it).
+	GCSpray int `json:"gc_spray,omitempty"`
 
 	// Raw: rawload mode hands this program (code, jt, jf, k) to seccomp(2) directly.
 	Raw [][4]uint32 `json:"raw,omitempty"`
